@@ -54,7 +54,8 @@ class Path:
     # -- queries used by rules
     def calls(self, pattern):
         rx = re.compile(pattern)
-        return [e for e in self.events if e[0] == "call" and rx.search(e[2])]
+        from .mirlib import strip_own_generics
+        return [e for e in self.events if e[0] == "call" and (rx.search(e[2]) or rx.search(strip_own_generics(e[2])))]
 
     def writes(self):
         return [e for e in self.events if e[0] == "write"]
